@@ -1,5 +1,5 @@
 From Coq Require Import List NArith Arith Permutation Sorted.
-From SK Require Import lib.LGraph lib.Mono model.C11_Model proof.C11_Aut proof.C11_WL proof.C11_Dedup proof.C11_Main proof.C11_Comp proof.C11_VF2 proof.C11_Vocab proof.C11_Sig proof.C11_Anchor model.C11_State proof.C11_StateProof model.C11_Partial proof.C11_PartialProof proof.C11_PruneClass proof.C11_WLPart proof.C11_Idem model.C11_Keys model.C11_Attr proof.C11_AttrProof model.C11_Orbit proof.C11_OrbitProof proof.C11_Extend model.C11_Order proof.C11_OrderProof model.C11_Views proof.C11_ViewsProof proof.C11_Singleton.
+From SK Require Import lib.LGraph lib.Mono model.C11_Model proof.C11_Aut proof.C11_WL proof.C11_Dedup proof.C11_Main proof.C11_Comp proof.C11_VF2 proof.C11_Vocab proof.C11_Sig proof.C11_Anchor model.C11_State proof.C11_StateProof model.C11_Partial proof.C11_PartialProof proof.C11_PruneClass proof.C11_WLPart proof.C11_Idem model.C11_Keys model.C11_Attr proof.C11_AttrProof model.C11_Orbit proof.C11_OrbitProof proof.C11_Extend model.C11_Order proof.C11_OrderProof model.C11_Views proof.C11_ViewsProof proof.C11_Singleton proof.C11_Count.
 Import ListNotations.
 
 (** Vocabulary (definitions in proof/C11_Aut.v, written out here for the reader):
@@ -539,3 +539,26 @@ Theorem C11_dedup_orbit_sets_merge_unrelated :
   set_eqb ex_m2 ex_m1 = false.
 Proof. exact dedup_orbit_sets_merge_unrelated. Qed.
 Print Assumptions C11_dedup_orbit_sets_merge_unrelated.
+
+(** Clauses 1 and 2 for a disconnected graph, SEMANTICALLY (round 5): "per component, with component swaps deliberately
+    excluded" means: with respect to the label-preserving automorphisms of the WHOLE graph that map every component into
+    itself ([keeps_components g s] := forall c x, In c (components g) -> In x c -> In (s x) c).  The reported orbits are
+    exactly the orbits of that subgroup, and the reported number - the product of the per-component numbers - is the
+    number of listed automorphisms of the whole graph that keep the components ([kept_auts] = filter of [auts] by the
+    computed test [keepsb]; restriction to the components and combination by cases are inverse bijections with the
+    tuples of component automorphisms).  Holds for every [wf] graph, connected or not. *)
+Theorem C11_orbits_no_swaps :
+  forall (fn : nlab -> N) (fe : elab -> N) (g : graph), wf g ->
+    forall o u v, In o (a_orbits (analyze fn fe g)) -> In u o ->
+      (In v o <-> exists s, is_automorphism fn fe g s /\ keeps_components g s /\ s u = v).
+Proof. exact orbits_no_swaps. Qed.
+Print Assumptions C11_orbits_no_swaps.
+
+Theorem C11_count_no_swaps :
+  forall (fn : nlab -> N) (fe : elab -> N) (g : graph), wf g ->
+    a_count (analyze fn fe g) = N.of_nat (length (filter (keepsb g) (auts fn fe g))) /\
+    (forall m, In m (filter (keepsb g) (auts fn fe g)) <->
+       exists s, is_automorphism fn fe g s /\
+                 (forall c x, In c (components g) -> In x c -> In (s x) c) /\ m = aut_pairs g s).
+Proof. exact count_no_swaps. Qed.
+Print Assumptions C11_count_no_swaps.
